@@ -150,7 +150,14 @@ def render(prog, indent=0, out=None, pos=None):
         st["line"] = len(out) + 1
         st["col"] = len(pad) + 1
         if k == "insn":
-            out.append(pad + FORM_TMPL[st["form"]].format(mn=st["mn"], e=render_expr(st["e"])))
+            text = FORM_TMPL[st["form"]].format(mn=st["mn"], e=render_expr(st["e"]))
+            if st.get("split") and " " in text:
+                # a statement that spans two source lines: only a block comment can carry the line break
+                head, rest = text.split(" ", 1)
+                out.append(pad + head + " /* operand on the")
+                out.append(pad + "   next line */ " + rest)
+            else:
+                out.append(pad + text)
         elif k == "label":
             if st["hasBody"]:
                 out.append(pad + st["name"] + ": {")
